@@ -100,8 +100,10 @@ class IncomingMessageHandler(IncomingMessageHandler15):
         }
         for key, buffer_message in node_messages.items():
             await gateway.send(buffer_message, message_buffer=False)
-            # clear the sleep buffer for this node
-            message_buffer.set_messages.pop(key)
+            # Clear the written message from the sleep buffer, unless a send
+            # during the write above has replaced it with a newer message.
+            if message_buffer.set_messages.get(key) is buffer_message:
+                message_buffer.set_messages.pop(key)
 
         return message
 
